@@ -533,7 +533,8 @@ def log_pass_records(lp):
 
 
 @st.composite
-def lis_files(draw, max_passes=3, max_frames=60, tif_options=('none', 'normal', 'reversed'), allow_dipmeter=True, tables=True):
+def lis_files(draw, max_passes=3, max_frames=60, tif_options=('none', 'normal', 'reversed'), allow_dipmeter=True, tables=True,
+              pairs=False, empty_passes=False):
     """A whole LIS file model: [reel/tape header] (file header, tables, log pass, tables, file trailer)+ [tape/reel trailer]."""
     cfg = draw(phys_cfgs(tif_options=tif_options))
     if cfg['pr_len'] < 16:
@@ -555,7 +556,20 @@ def lis_files(draw, max_passes=3, max_frames=60, tif_options=('none', 'normal', 
                                                  for _r in range(draw(st.integers(0, 3)))]}))
             if draw(st.integers(0, 5)) == 0:
                 items.append(('misc', (232, draw(st.binary(min_size=1, max_size=40)))))
-        items.append(('pass', draw(log_passes(max_frames=max_frames, allow_dipmeter=allow_dipmeter))))
+        if empty_passes and draw(st.integers(0, 5)) == 0:
+            # a format specification that is not followed by any data record (e.g. written twice): a log pass of 0 frames
+            e = draw(log_passes(max_frames=2, allow_dipmeter=False))
+            items.append(('pass', dict(e, frames=[], per_record=[])))
+        if pairs and draw(st.integers(0, 3)) == 0:
+            # a normal data (type 0) and an alternate data (type 1) log pass in ONE logical file, their data records interleaved
+            a = draw(log_passes(max_frames=max_frames, allow_dipmeter=allow_dipmeter))
+            b = draw(log_passes(max_frames=max_frames, allow_dipmeter=allow_dipmeter))
+            a = dict(a, data_type=0, blocks=[dict(x, value=0) if x['type'] == 1 else x for x in a['blocks']])
+            b = dict(b, data_type=1, blocks=[dict(x, value=1) if x['type'] == 1 else x for x in b['blocks']])
+            order = draw(st.lists(st.booleans(), min_size=len(a['per_record']) + len(b['per_record']), max_size=len(a['per_record']) + len(b['per_record'])))
+            items.append(('pass_pair', {'a': a, 'b': b, 'order': order, 'b_first': draw(st.booleans())}))
+        else:
+            items.append(('pass', draw(log_passes(max_frames=max_frames, allow_dipmeter=allow_dipmeter))))
         if tables and draw(st.integers(0, 3)) == 0:
             items.append(('table', {'lr_type': 34, 'name': b'CONS', 'columns': [b'MNEM', b'VALU'], 'rows': []}))
         if draw(st.integers(0, 9)) != 0:
@@ -584,6 +598,30 @@ def build_lis_file(case):
         elif kind == 'misc':
             listing.append((len(lrs), 'misc', payload[0], None))
             lrs.append(lr_header(payload[0]) + payload[1])
+        elif kind == 'pass_pair':
+            pa, pb = payload['a'], payload['b']
+            ra, ia = log_pass_records(pa)
+            rb, ib = log_pass_records(pb)
+            first, second = ((pb, rb, ib), (pa, ra, ia)) if payload.get('b_first') else ((pa, ra, ia), (pb, rb, ib))
+            entries = []
+            for lp_, recs_, info_ in (first, second):
+                listing.append((len(lrs), 'pass', LR_DFSR, None))
+                e = {'lp': lp_, 'dfsr_lr': len(lrs), 'data_lrs': []}
+                lrs.append(recs_[0])
+                entries.append((e, list(zip(recs_[1:], info_))))
+                passes.append(e)
+            qa, qb = entries[0][1], entries[1][1]
+            for take_second in payload['order']:
+                src = qb if (take_second and qb) or not qa else qa
+                if not src:
+                    continue
+                r, (f0, n) = src.pop(0)
+                (entries[1][0] if src is qb else entries[0][0])['data_lrs'].append((len(lrs), f0, n))
+                lrs.append(r)
+            for e, q in entries:
+                for r, (f0, n) in q:
+                    e['data_lrs'].append((len(lrs), f0, n))
+                    lrs.append(r)
         else:
             recs, info = log_pass_records(payload)
             listing.append((len(lrs), 'pass', LR_DFSR, None))
